@@ -271,7 +271,7 @@ def value_lookups(fi, recv):
 
 def _path_cropped_table(ctx, mdl):
     fi = mdl.func('path.Path.cropped')
-    n = 3
+    n = 4 if ctx.tier == 'thorough' else 3      # thorough: one more segment between the crop ends
     V = [Rat.csym('V%d' % i) for i in range(n)]
     TT0, TT1 = Rat.sym('T0'), Rat.sym('T1')
     s0, s1 = Rat.sym('s0'), Rat.sym('s1')
